@@ -775,7 +775,11 @@ def classify(case):
     for sa in case["sa"]:
         r = class_reason(pr[0] if pr else None, sa, pr[1] if pr else None)
         if r is None and om is None:
-            labs.append("string-class:inside/sa=%d" % sa)
+            # the hypothesis of the suffix-aware theorems (C08's clause at u) holds?
+            if sa and pr[1] is not None and (pr[1][1] if pr[1][0] == "" else pr[1][0] + "." + pr[1][1]) != (pr[0].hostname or "").lower():
+                labs.append("string-class:inside-but-C08-clause-fails(trailing-dot)/sa=1")
+            else:
+                labs.append("string-class:inside/sa=%d" % sa)
         elif r is None:
             labs.append("string-class:components-inside-but-parser-model-rejects/sa=%d" % sa)
         else:
